@@ -234,6 +234,32 @@ func check(p program, r *drv.Result) string {
 			stack = stack[:len(stack)-1]
 		}
 	}
+	// the same program once more, this time visiting the intermediate result after every step before going on: a visit
+	// reads the tree and leaves nothing behind, so every later visit still reports the program as built so far
+	if len(p.steps) > 0 {
+		m3 := src.Build()
+		ref3 := &rnode{kind: "morphism", open: true, kids: []*rnode{{kind: "from", ta: src.T}}}
+		cur3 := src.A
+		for k := 0; ; k++ {
+			var want3 []string
+			ref3.trace(0, &want3)
+			rec3 := &recorder{failAt: -1}
+			r.Evaluations++
+			if err := appliers[src.A+"|"+cur3](m3, rec3); err != nil {
+				return fmt.Sprintf("visit after step %d returned %v although no callback failed", k, err)
+			}
+			if strings.Join(rec3.trace, " ") != strings.Join(want3, " ") {
+				return fmt.Sprintf("the result was visited after each of its first %d steps and then again after step %d: that visit's trace\n   got  %v\n   want %v", max(k-1, 0), k, rec3.trace, want3)
+			}
+			if k == len(p.steps) {
+				break
+			}
+			st := steps[p.steps[k]]
+			m3 = st.Apply(m3)
+			ref3.apply(st)
+			cur3 = st.To
+		}
+	}
 	for pos := range want {
 		m2, _, _ := p.build()
 		rec2 := &recorder{failAt: pos}
